@@ -309,3 +309,125 @@ func init() {
 		specialReplays["io/fs.(*readFile).filterLineWithLContext#post:"+l] = c03
 	}
 }
+
+func init() {
+	// C01/C07 frame-complete: a record larger than the transport buffer must
+	// still reach the client completely. Model: len(p) smaller than the record.
+	frame := func(P *Program, v *ObligResult) (string, string, bool, error) {
+		fn := fnOfObligation(P, v.Name)
+		plen := int64(1)
+		if s, ok := v.Model["p$len"]; ok {
+			fmt.Sscanf(smtIntToGo(s), "%d", &plen)
+		}
+		if plen < 1 {
+			plen = 1
+		}
+		if plen > 1<<20 {
+			plen = 1 << 20
+		}
+		g := &goGen{P: P, model: v.Model, pkg: fn.Pkg.Pkg, imports: map[string]bool{"testing": true, "fmt": true, "bytes": true,
+			modPath + "/internal": true, modPath + "/internal/io/line": true}}
+		body := fmt.Sprintf(`h := &baseHandler{done: internal.NewDone(), lines: make(chan *line.Line, 10), serverMessages: make(chan string, 10), maprMessages: make(chan string, 10), plain: true}
+		content := bytes.Repeat([]byte("x"), %d+7)
+		h.lines <- line.New(bytes.NewBuffer(append([]byte(nil), content...)), 1, 100, "id")
+		h.lines <- line.New(bytes.NewBufferString("second line"), 2, 100, "id")
+		var got []byte
+		p := make([]byte, %d)
+		for len(h.lines) > 0 || h.readBuf.Len() > 0 {
+			n, err := h.Read(p)
+			if err != nil {
+				break
+			}
+			got = append(got, p[:n]...)
+		}
+		want := append(append(append([]byte(nil), content...), 0xAC), append([]byte("second line"), 0xAC)...)
+		if !bytes.Equal(got, want) {
+			panic(fmt.Sprintf("a %%d byte line read through a %%d byte transport buffer: client receives %%d bytes, %%d were to be sent (record truncated, delimiter lost, next line merged)", len(content), len(p), len(got), len(want)))
+		}`, plen, plen)
+		src := g.testFile(fn.Pkg.Pkg, body)
+		out, ok, err := runOverlayTest(P, fn.Pkg.Pkg, src)
+		return src, out, ok, err
+	}
+	for _, sfx := range []string{"", "~2", "~3", "~4"} {
+		specialReplays["server/handlers.(*baseHandler).Read#assert:frame-complete@copy(p, h.readBuf.Bytes())"+sfx] = frame
+	}
+	specialReplays["server/handlers.(*baseHandler).Read#post:nothing-lost"] = frame
+	specialReplays["server/handlers.(*baseHandler).Read#post:remainder-first"] = frame
+}
+
+// c01EndToEnd: one line (and optionally a server message) goes through the
+// real server-side Read, the bytes are fed to a real client handler's Write,
+// and what the client prints on stdout in plain mode is compared with the
+// file content.
+func c01EndToEnd(content string, serverMsg string) func(P *Program, v *ObligResult) (string, string, bool, error) {
+	return func(P *Program, v *ObligResult) (string, string, bool, error) {
+		fn := fnOfObligation(P, v.Name)
+		src := fmt.Sprintf(`package handlers
+
+import (
+	"bytes"
+	"context"
+	"fmt"
+	"io"
+	"os"
+	"sync"
+	"testing"
+
+	"github.com/mimecast/dtail/internal"
+	chandlers "github.com/mimecast/dtail/internal/clients/handlers"
+	"github.com/mimecast/dtail/internal/config"
+	"github.com/mimecast/dtail/internal/io/dlog"
+	"github.com/mimecast/dtail/internal/io/line"
+	"github.com/mimecast/dtail/internal/source"
+)
+
+func TestGovcReplay(t *testing.T) {
+	os.Setenv("DTAIL_HOSTNAME_OVERRIDE", "replayhost")
+	config.Setup(source.Client, &config.Args{ConfigFile: "none", Logger: "stdout", LogLevel: "error", NoColor: true, Plain: true}, nil)
+	ctx, cancel := context.WithCancel(context.Background())
+	defer cancel()
+	var wg sync.WaitGroup
+	wg.Add(1)
+	dlog.Start(ctx, &wg, source.Client)
+
+	content := []byte(%q)
+	serverMsg := %q
+	h := &baseHandler{done: internal.NewDone(), lines: make(chan *line.Line, 10), serverMessages: make(chan string, 10), maprMessages: make(chan string, 10), plain: true, hostname: "replayhost"}
+	if serverMsg != "" {
+		h.serverMessages <- serverMsg
+	}
+	h.lines <- line.New(bytes.NewBuffer(append([]byte(nil), content...)), 1, 100, "id")
+
+	// capture what the client prints
+	realStdout := os.Stdout
+	r, w, _ := os.Pipe()
+	os.Stdout = w
+	client := chandlers.NewClientHandler("replayhost")
+	p := make([]byte, 32*1024)
+	for len(h.lines) > 0 || len(h.serverMessages) > 0 || h.readBuf.Len() > 0 {
+		n, err := h.Read(p)
+		if err != nil {
+			break
+		}
+		client.Write(p[:n])
+	}
+	w.Close()
+	os.Stdout = realStdout
+	printed, _ := io.ReadAll(r)
+	if !bytes.Equal(printed, content) {
+		fmt.Printf("GOVC-REPLAY: file line %%q, dcat --plain prints %%q\n", content, printed)
+		t.Fatalf("reproduced: output differs from the file content")
+	}
+	fmt.Println("GOVC-REPLAY: output equals content")
+}
+`, content, serverMsg)
+		out, ok, err := runOverlayTest(P, fn.Pkg.Pkg, src)
+		return src, out, ok, err
+	}
+}
+
+func init() {
+	specialReplays["server/handlers.(*baseHandler).Read#assert:content-has-no-delimiter@h.readBuf.WriteString(line.Content.String())"] = c01EndToEnd("price 5\xe2\x82\xac today\n", "")
+	specialReplays["server/handlers.(*baseHandler).Read#assert:plain-content-not-hidden@h.readBuf.WriteString(line.Content.String())"] = c01EndToEnd(".hidden file line\n", "")
+	specialReplays["server/handlers.(*baseHandler).Read#assert:plain-no-extra-bytes@h.readBuf.WriteString(\"SERVER\")"] = c01EndToEnd("a line\n", "WARN|some server side warning\n")
+}
